@@ -2,7 +2,7 @@ package checks
 
 import (
 	"crypto/sha256"
-	"encoding/hex"
+	"encoding/base64"
 	"fmt"
 	"net/http"
 	"sort"
@@ -303,7 +303,7 @@ func c03Run(c *fw.Ctx) {
 		cp := *sess
 		cp.Groups = cookieGroups
 		if large {
-			cp.AccessToken, cp.RefreshToken = c03LongToken("access", 2600), c03LongToken("refresh", 1700)
+			cp.AccessToken, cp.RefreshToken = c03LongToken("access", 3600), c03LongToken("refresh", 2000)
 		}
 		if due == "revalidation-due" {
 			cp.ValidDeadline = harness.At(-time.Second)
@@ -414,7 +414,7 @@ func c03LongToken(seed string, n int) string {
 	var sb strings.Builder
 	h := sha256.Sum256([]byte(seed))
 	for sb.Len() < n {
-		sb.WriteString(hex.EncodeToString(h[:]))
+		sb.WriteString(base64.RawURLEncoding.EncodeToString(h[:]))
 		h = sha256.Sum256(h[:])
 	}
 	return sb.String()[:n]
